@@ -135,7 +135,12 @@ impl Front {
         let mut ws: Vec<_> = hs.iter().map(|(t, i, h)| (*t, *i, *h, h.reload_watcher(), h.last_reload_id())).collect();
         let mut bad = Vec::new();
         for (t, i, h, w, _) in ws.iter_mut() {
-            let _ = h.reloaded_global();
+            // the flag is cleared here for the comparison after the pass; a handle that was NEVER rewritten
+            // (its id, read after the flag, is still NEVER) cannot have it set
+            let g0 = h.reloaded_global();
+            if g0 && rid_of(h.last_reload_id()) == 0 {
+                bad.push(json!({"what":"reloaded_global reports a reload of a handle that was never rewritten","ty":t,"id":i}));
+            }
             if w.reloaded() {
                 bad.push(json!({"what":"fresh ReloadWatcher reports a reload","ty":t,"id":i}));
             }
